@@ -89,6 +89,7 @@ type sinks struct {
 	tcp      []*net.TCPListener
 	udp      []*net.UDPConn
 	skipped  []string
+	onUDP    func(addr []int, payload []byte) bool // conc stage: takes the datagram if it returns true
 }
 
 var tokRe = regexp.MustCompile(`^([TU])(\d+)(?::(\d+))?;`)
@@ -207,6 +208,9 @@ func (s *sinks) serveUDP(u *net.UDPConn, addr []int) {
 		n, _, err := u.ReadFromUDP(buf)
 		if err != nil {
 			return
+		}
+		if s.onUDP != nil && s.onUDP(addr, buf[:n]) {
+			continue
 		}
 		m := tokRe.FindSubmatch(buf[:n])
 		s.mu.Lock()
